@@ -30,6 +30,9 @@ pub struct ACfg {
     /// middleware and a subscriber; 2: the first subscriber parks inside its first notification while
     /// another thread unsubscribes it and registers a new one
     pub mid_phase: u8,
+    /// how the store is constructed (see StoreCfg::ctor); only with the default capacity and policy
+    pub ctor: u8,
+    pub default_name: bool,
 }
 
 pub fn gen(rng: &mut Rng, tiny: bool, focus: &str) -> ACfg {
@@ -152,6 +155,8 @@ pub fn gen(rng: &mut Rng, tiny: bool, focus: &str) -> ACfg {
         stop_how: if rng.chance(1, 4) { STOP_TRAIT } else { STOP_STOP },
         sampler: focus == "C18" || rng.chance(1, 4),
         mid_phase,
+        ctor: if cap == 16 && policy == POL_BLOCK { rng.below(3) as u8 } else { 0 },
+        default_name: rng.chance(1, 2),
     }
 }
 
@@ -160,6 +165,7 @@ pub fn describe(c: &ACfg) -> J {
         ("family", J::s("A")),
         ("policy", J::s(POL_NAMES[c.policy as usize])),
         ("capacity", J::U(c.cap as u64)),
+        ("constructor", J::s(["StoreBuilder", "StoreImpl::new_with_name/new_with_reducer + add_*", "StoreImpl::new + add_*"][c.ctor as usize])),
         ("reducers", J::U(c.n_red as u64)),
         ("middlewares", J::U(c.n_mw as u64)),
         ("direct_subscribers", J::U(c.n_sub as u64)),
@@ -176,7 +182,7 @@ pub fn describe(c: &ACfg) -> J {
 /// Build the world, run the clients, stop, return the world for the oracles.
 pub fn execute(c: &ACfg, seed: u64) -> (W, bool) {
     let ctx = Ctx::new(ScriptSrc::Table(c.scripts.clone()), 1, seed, c.perturb, c.read_in_cb);
-    let w = W::new(ctx, vec![StoreCfg { policy: c.policy, cap: c.cap, n_red: c.n_red, n_mw: c.n_mw, name: "rsva".into() }]);
+    let w = W::new(ctx, vec![StoreCfg { policy: c.policy, cap: c.cap, n_red: c.n_red, n_mw: c.n_mw, name: if c.ctor != 0 && c.default_name { "store".into() } else { "rsva".into() }, ctor: c.ctor }]);
     let mut subs = Vec::new();
     for i in 0..c.n_sub {
         let gate = if c.mid_phase == 2 && i == 0 { 0 } else { NOGATE };
